@@ -51,6 +51,8 @@ def validate(chk, cases, rows):
             while chunk and chunk[-1]["ev"] != "reset":
                 chunk.pop()
         res = vlib.tlc_trace(TRACE, TRACE + ".cfg", chunk, timeout=900)
+        if not res.ok and not res.errors and not res.inv:       # the process vanished (shared machine): once more
+            res = vlib.tlc_trace(TRACE, TRACE + ".cfg", chunk, timeout=900)
         stats["tlc_runs"] += 1
         chk.coverage["states"] += res.distinct
         chk.coverage["transitions"] += res.generated
